@@ -22,6 +22,9 @@ type fsmView struct {
 	accOf []int
 	// per accepted index: step index
 	stepOfAcc []int
+	// only recordings started at or after this step are judged (earlier ones
+	// still feed "previous end"); used by C12's recovery check
+	from int
 }
 
 func newFsmView(r *fsmRun) *fsmView {
@@ -64,6 +67,13 @@ func oracleC01(v *fsmView) []vio {
 		if len(rec.Seqs) == 0 {
 			continue
 		}
+		if rec.StartStep < v.from {
+			lastEnd = v.acc(rec.Seqs[len(rec.Seqs)-1])
+			for _, seq := range rec.Seqs {
+				seen[v.acc(seq)] = true
+			}
+			continue
+		}
 		prev := -2
 		for k, seq := range rec.Seqs {
 			a := v.acc(seq)
@@ -104,6 +114,12 @@ func oracleC02(v *fsmView) []vio {
 	e := -1
 	for ri, rec := range v.recs {
 		t := v.steps[rec.StartStep].Acc
+		if rec.StartStep < v.from {
+			if len(rec.Seqs) > 0 {
+				e = v.acc(rec.Seqs[len(rec.Seqs)-1])
+			}
+			continue
+		}
 		if t < 0 {
 			out = append(out, vio{"start-outside-frame", "motion sink", fmt.Sprintf("recording %d started at step %d which is not an accepted frame", ri, rec.StartStep)})
 			return out
@@ -147,7 +163,7 @@ func oracleC03(v *fsmView) []vio {
 	minF, maxF := v.cfg.minF(), v.cfg.maxF()
 	for ri, rec := range v.recs {
 		t := v.steps[rec.StartStep].Acc
-		if t < 0 {
+		if t < 0 || rec.StartStep < v.from {
 			continue
 		}
 		// walk accepted frames from the trigger on
